@@ -245,7 +245,8 @@ def gen_xmd():
     # other (field, hash, k) with L == block size of the hash
     few_msgs = [b"", b"abc", patt(64, 31, 7)]
     for fid, hn, k in (("bls12_377_fq", "sha256", 128), ("bls12_381_fr", "sha256", 256),
-                       ("mnt4_753_fq", "sha512", 270), ("mnt4_753_fq", "sha384", 270)):
+                       ("mnt4_753_fq", "sha512", 270), ("mnt4_753_fq", "sha384", 270),
+                       ("bls12_381_fq", "sha224", 128), ("bls12_381_fq2", "sha224", 128)):
         p, m = FIELDS[fid]
         assert R.L_of(p, k) == R.HASHES[hn][2]
         for dst in tags:
